@@ -30,7 +30,7 @@ def histories(sc, limit):
     simple = [i for i, o in enumerate(ops) if o["op"] in ("edit", "touch", "rm", "variant", "write")]
     for i in simple:
         H.append(init + [{"op": bl, "choices": []}, {"op": i}, {"op": bl, "choices": [-2] * 8}, {"op": b0, "choices": []}])
-    faulty = [i for i in ninjas if ops[i].get("faults") and not any(f.get("signal") or f.get("baddep") or f.get("trimdep") for f in ops[i]["faults"].values())]
+    faulty = [i for i in ninjas if ops[i].get("faults") and not any(f.get("signal") or f.get("baddep") or f.get("trimdep") or f.get("depdir") for f in ops[i]["faults"].values())]
     for i in faulty[:4]:
         H.append(init + [{"op": i, "choices": []}, {"op": bl, "choices": []}])
         H.append(init + [{"op": bl, "choices": []}] + ([{"op": simple[0]}] if simple else []) + [{"op": i, "choices": [-2] * 8}, {"op": bl, "choices": []}])
